@@ -40,6 +40,7 @@ def main():
     runpat = m.group(1) if m else "Seed"
     use126 = "synctest" in open(demo).read() or "go1.26" in first
     go = "go1.26.8" if use126 else "go"
+    tags = ["-tags", "verif"] if re.search(r"go:build.*\bverif\b|-tags verif", open(demo).read()[:600]) else []
     wt = "/tmp/seedchk-%s-%s%s" % (prop, tag, n)
     sh(["git", "-C", REPO, "worktree", "remove", "--force", wt])
     rc, out = sh(["git", "-C", REPO, "worktree", "add", "-q", "--detach", wt, "HEAD"])
@@ -49,7 +50,7 @@ def main():
     try:
         demo_dst = os.path.join(wt, pkgdir, "zz_seed%s_test.go" % n)
         shutil.copyfile(demo, demo_dst)
-        rc0, out0 = sh([go, "test", "-vet=off", "-count=1", "-run", runpat, "./" + pkgdir + "/"], cwd=wt)
+        rc0, out0 = sh([go, "test"] + tags + ["-vet=off", "-count=1", "-run", runpat, "./" + pkgdir + "/"], cwd=wt)
         meta["demo_without_change"] = "pass" if rc0 == 0 else "FAIL"
         os.remove(demo_dst)
         rc, out = sh(["git", "apply", patch], cwd=wt)
@@ -60,7 +61,7 @@ def main():
         meta["suite_with_change"] = "pass" if rcs == 0 else "FAIL"
         meta["suite_packages"] = touched
         shutil.copyfile(demo, demo_dst)
-        rc1, out1 = sh([go, "test", "-vet=off", "-count=1", "-run", runpat, "./" + pkgdir + "/"], cwd=wt, timeout=1200)
+        rc1, out1 = sh([go, "test"] + tags + ["-vet=off", "-count=1", "-run", runpat, "./" + pkgdir + "/"], cwd=wt, timeout=1200)
         meta["demo_with_change"] = "fail" if rc1 != 0 else "PASSES (not a breaking change?)"
         meta["demo_output_tail"] = out1[-1500:]
         if rcs != 0:
